@@ -1,0 +1,69 @@
+//go:build verif
+
+package blockstore
+
+import (
+	cid "github.com/ipfs/go-cid"
+)
+
+// VerifSched, when non-nil, is called at every schedule point of the Bloom
+// cache (verification builds only). It must be set before the cache is created.
+var VerifSched func(point string)
+
+func verifPoint(p string) {
+	if f := VerifSched; f != nil {
+		f(p)
+	}
+}
+
+// VerifInner returns the blockstore wrapped by a cache layer (nil otherwise).
+func VerifInner(bs Blockstore) Blockstore {
+	switch b := bs.(type) {
+	case *bloomcache:
+		return b.blockstore
+	case *tqcache:
+		return b.blockstore
+	}
+	return nil
+}
+
+// VerifBloomHas reports what the live Bloom filter answers for k,
+// regardless of the active flag. ok is false when bs is not a Bloom cache.
+func VerifBloomHas(bs Blockstore, k cid.Cid) (has bool, ok bool) {
+	b, isBloom := bs.(*bloomcache)
+	if !isBloom {
+		return false, false
+	}
+	return b.bloom.Load().HasTS(k.Hash()), true
+}
+
+// VerifTQEntry is one entry of the 2Q cache: Have is the cached existence
+// bit, Size the cached size or -1 when only existence is cached.
+type VerifTQEntry struct {
+	Key  string
+	Have bool
+	Size int
+}
+
+// VerifTQDump lists the entries of the 2Q cache in the order of
+// TwoQueueCache.Keys (frequent first, oldest first within each list), without
+// touching recency. ok is false when bs is not a 2Q cache.
+func VerifTQDump(bs Blockstore) (out []VerifTQEntry, ok bool) {
+	b, isTQ := bs.(*tqcache)
+	if !isTQ {
+		return nil, false
+	}
+	for _, k := range b.cache.Keys() {
+		v, present := b.cache.Peek(k)
+		if !present {
+			continue
+		}
+		switch h := v.(type) {
+		case cacheHave:
+			out = append(out, VerifTQEntry{Key: k, Have: bool(h), Size: -1})
+		case cacheSize:
+			out = append(out, VerifTQEntry{Key: k, Have: true, Size: int(h)})
+		}
+	}
+	return out, true
+}
